@@ -741,6 +741,7 @@ class Interp:
         self.ext_names = {}
         self.effects = set()
         self.budget = None
+        self.skip_bodies = set()    # workspace functions treated as opaque (rule-specific runs)
         self.partitions = {}        # fn name -> {variable names}: trace partitioning directives
         self.partitions_found = {}
 
@@ -2114,6 +2115,8 @@ class CallMixin:
             return m(self, frame, b, t, sts, c, quiet)
         rdid = c.get('rdid')
         body = self.prog.bodies.get(rdid) if rdid else None
+        if body is not None and body['name'] in self.skip_bodies:
+            return self.external(frame, b, t, sts, c, quiet, trusted=True)
         if body is not None:
             return self.inline(frame, b, t, sts, body, c, quiet)
         return self.external(frame, b, t, sts, c, quiet)
